@@ -739,8 +739,12 @@ func c05(c *an.Check) {
 				continue
 			}
 			nFilt++
-			fromKey := func(v ssa.Value) bool { return p.DependsOn(v, func(x ssa.Value) bool { return x == ssa.Value(g.Params[0]) }) }
-			fromDialer := func(v ssa.Value) bool { return p.DependsOn(v, func(x ssa.Value) bool { return x == ssa.Value(g.Params[1]) }) }
+			fromKey := func(v ssa.Value) bool {
+				return p.DependsOn(v, func(x ssa.Value) bool { return x == ssa.Value(g.Params[0]) })
+			}
+			fromDialer := func(v ssa.Value) bool {
+				return p.DependsOn(v, func(x ssa.Value) bool { return x == ssa.Value(g.Params[1]) })
+			}
 			lostPeer := func(v ssa.Value) bool {
 				return p.DependsOn(v, func(x ssa.Value) bool {
 					call, ok := x.(*ssa.Call)
